@@ -437,6 +437,7 @@ func TestC04(t *testing.T) {
 	if t.Failed() {
 		return
 	}
+	c04Concurrent(c, t)
 	// directed table 1: r = 1 with hand-solvable blocks: two blocks whose sum makes h = p-3..p+4
 	n := 0
 	for d := int64(-3); d <= 4; d++ {
